@@ -52,7 +52,7 @@ impl Compiler {
                     self.compile_expr(arg, arg_reg)?;
                 }
 
-                self.emit_call_global_cached(dest, global_idx as u8, args.len() as u8, name, span);
+                self.emit_call_global_cached(dest, global_idx as u8, args.len() as u8, name, span)?;
                 self.release_arg_registers(arg_start, args.len());
                 return Ok(true);
             }
